@@ -123,8 +123,10 @@ def _mutators(name, c):
         out.append(("set_target", lambda: c.set_target(ms.PointCloud(c.target.points * 1.25 + 0.5))))
     if hasattr(c, "compose_before_inplace") and name not in ("WithDims",):
         out.append(("compose_before_inplace", lambda: c.compose_before_inplace(c.copy())))
-    if hasattr(c, "_from_vector_inplace") and name.split("3D")[0] in ("Homogeneous", "Affine", "Similarity", "Translation", "UniformScale", "NonUniformScale"):
+    if hasattr(c, "_from_vector_inplace") and name.split("3D")[0] in ("Homogeneous", "Affine", "Similarity", "Translation", "UniformScale", "NonUniformScale",
+                                                                         "AlignmentAffine", "AlignmentSimilarity", "AlignmentTranslation", "AlignmentUniformScale"):
         out.append(("_from_vector_inplace", lambda: c._from_vector_inplace(np.asarray(c.as_vector()) * 1.5)))
+        out.append(("from_vector", lambda: c.from_vector(np.asarray(c.as_vector()) * 0.5)))
     if hasattr(c, "trim_components"):
         out.append(("n_active_components", lambda: setattr(c, "n_active_components", 1)))
         out.append(("trim_components", lambda: c.trim_components(1)))
